@@ -500,6 +500,7 @@ META["C13"] = {
              "zygote process and 6 steps per history are repeated at the end of the session. Non-trivial = every "
              "executed step; distinct = step digests."),
     "required": ["histories", "purity-snapshots", "aliasing-checks", "pristine-replays", "end-of-session-repeats",
+                 "repeat-while-result-modified",
                  "step:compose:ret", "step:quotient:ret", "step:merge:ret", "step:rename:ret", "step:copy:ret",
                  "step:elim_refine:ret", "step:elim_relax:ret", "step:lsimplify:ret", "step:optimize:ret",
                  "step:parse:ret", "step:string_roundtrip:ret", "step:machine_roundtrip:ret"],
